@@ -175,7 +175,7 @@ def run(tier, seed):
     bdir = build.build("asan")
     chk = core.Check(PID, tier, seed)
     rd = core.record_dir(PID) if tier == "thorough" else None
-    sh = core.parallel(shard_fn, seed=seed, tier=tier, exe=bdir + "/jcdrv", ndocs=4000 if tier == "quick" else 20000)
+    sh = core.parallel(shard_fn, seed=seed, tier=tier, exe=bdir + "/jcdrv", ndocs=12000 if tier == "quick" else 80000)
     chk.absorb(sh)
     if rd:
         os.environ.pop("VF_RECORD_DIR", None)
